@@ -20,9 +20,11 @@ tables and grammars are in `Tahoe/Config/Doc.lean`, helper lemmas in `Tahoe/Conf
 | "accepted in tahoe.cfg (lease-duration overrides, cutoff dates, reserved space …)": each setting reaches its parser | `glue_reserved_space`, `glue_override_lease_duration`, `glue_cutoff_date`, `glue_booleans` |
 | a malformed setting stops node start | `glue_malformed_value_stops_start`, `glue_bad_boolean_or_mode_stops_start` |
 | a documented configuration starts the node | `glue_documented_config_starts` |
+| `_Config.get_config`: a present value (blank or not) reaches its parser unchanged but for `strip`; blank ≠ absent | `get_config_present_reaches_parser`, `glue_blank_value_stops_start` (seed C48-e) |
+| boolean settings (`getboolean` words, any case / surrounding whitespace) and the mode literals | `getboolean_spellings`, `classifyBool_iff`, `mode_literals` |
 | abbreviated sizes the node prints parse back to the same value | `print_then_parse_partial` (sizes < 1024, exact); for sizes ≥ 1024 **false of the code**: `print_then_parse_counterexample`, `printed_large_rejected` (open known finding `print-parse-decimal-rejected`) |
 | the regexes / tables in the source are the ones modelled | `duration_regex_pinned`, `size_regex_pinned`, `date_regex_pinned` (extracted constants); recogniser ≙ regex and character classes ≙ `Sym`: **correspondence only** (every code point in the thorough tier) |
-| configparser itself (line splitting, `strip`, `getboolean` words, option-name folding) | **correspondence only**; `strip` and the boolean / mode classes are abstracted by the harness |
+| configparser's file syntax (line splitting, `key = value`, continuation lines, `%` interpolation, option-name folding) | **correspondence only** (the harness writes real tahoe.cfg text; the model starts from the text after `key =`) |
 -/
 namespace Tahoe.C48
 open Tahoe.Config Tahoe.Generated
@@ -619,5 +621,111 @@ example : startStorage { expireMode := some .cutoff, cutoffDate := some [.dig 2,
     = .error .valueError := by decide
 example : startStorage { overrideLeaseDuration := some [.dig 1, .longS] } = .error .keyError := by decide
 example : startStorage { expireEnabled := some .t } = .error .missingEntry := by decide
+
+/-! ## `_Config.get_config`: a present value — blank or not — reaches its parser; `getboolean` and the mode literals -/
+
+/-- `get_config` hands the parser the stripped item whenever the option is present; only an absent option
+    yields the default.  In particular a blank item is `some []`, not the default `none` (seed C48-e). -/
+theorem get_config_present_reaches_parser :
+    getConfig none = none ∧ (∀ v, getConfig (some v) = some (strip v)) ∧
+    (∀ v, v.all isWs = true → getConfig (some v) = some []) := by
+  refine ⟨rfl, fun _ => rfl, fun v h => ?_⟩
+  simp [getConfig, strip_allWs v h]
+
+/-- **a present-but-blank value is malformed, not absent**: a blank `expire.override_lease_duration` (in any
+    mode), a blank `expire.cutoff_date` in "cutoff-date" mode, a blank `expire.mode` and a blank boolean all stop
+    node start; only `reserved_space`, whose documentation makes it optional, reads blank as "no reservation". -/
+theorem glue_blank_value_stops_start (r : RawStorageCfg) :
+    ((∃ v, r.overrideLeaseDuration = some v ∧ v.all isWs = true) → ∃ e, startStorageRaw r = .error e) ∧
+    ((∃ v, r.expireMode = some v ∧ v.all isWs = true) → ∃ e, startStorageRaw r = .error e) ∧
+    ((∃ m, r.expireMode = some m ∧ classifyMode m = .cutoff) → (∃ v, r.cutoffDate = some v ∧ v.all isWs = true) →
+      ∃ e, startStorageRaw r = .error e) ∧
+    ((∃ v, v.all isWs = true ∧ (r.readonly = some v ∨ r.debugDiscard = some v ∨ r.expireEnabled = some v ∨
+        r.expireImmutable = some v ∨ r.expireMutable = some v)) → ∃ e, startStorageRaw r = .error e) ∧
+    (∀ v st, r.reservedSpace = some v → v.all isWs = true → startStorageRaw r = .started st → st.reserved = 0) := by
+  unfold startStorageRaw
+  refine ⟨?_, ?_, ?_, ?_, ?_⟩
+  · rintro ⟨v, hv, hb⟩
+    refine (glue_malformed_value_stops_start _).2.1 ⟨v, by simp [readSection, hv], ?_⟩
+    rw [strip_allWs v hb]; exact not_docDuration_nil
+  · rintro ⟨v, hv, hb⟩
+    exact glue_bad_boolean_or_mode_stops_start _ (by simp [readSection, hv, classifyMode_blank v hb])
+  · rintro ⟨m, hm, hc⟩ ⟨v, hv, hb⟩
+    refine (glue_malformed_value_stops_start _).2.2 ⟨by simp [readSection, hm, hc], v, by simp [readSection, hv], ?_⟩
+    rw [strip_allWs v hb]; exact not_docDate_nil
+  · rintro ⟨v, hb, h⟩
+    apply glue_bad_boolean_or_mode_stops_start
+    rcases h with h | h | h | h | h <;> simp [readSection, h, classifyBool_blank v hb]
+  · intro v st hv hb hst
+    rcases glue_reserved_space _ st hst with ⟨h0, -⟩ | ⟨v', hv', ⟨-, h1⟩ | h2⟩
+    · simp [readSection, hv] at h0
+    · exact h1
+    · simp only [readSection, hv, Option.some.injEq] at hv'
+      subst hv'
+      rw [strip_allWs v hb] at h2
+      obtain ⟨ds, mid, w, tail, i, bin, hasB, hs, hds, -⟩ := h2
+      cases ds with
+      | nil => exact absurd rfl hds
+      | cons d ds => simp at hs
+
+/-- `configparser.getboolean`: true for "1", "yes", "true", "on", false for "0", "no", "false", "off" — in any
+    case, with any surrounding whitespace — and exactly those (`classifyBool_iff`). -/
+theorem getboolean_spellings (pre w post : List Sym) (hpre : pre.all isWs = true) (hpost : post.all isWs = true) :
+    (w = [.dig 1] ∨ (∃ word ∈ [[121, 101, 115], [116, 114, 117, 101], [111, 110]], w.map lowerSym = wordSyms word) →
+      classifyBool (pre ++ w ++ post) = .t) ∧
+    (w = [.dig 0] ∨ (∃ word ∈ [[110, 111], [102, 97, 108, 115, 101], [111, 102, 102]], w.map lowerSym = wordSyms word) →
+      classifyBool (pre ++ w ++ post) = .f) := by
+  constructor
+  · rintro (rfl | ⟨word, hmem, hw⟩)
+    · rw [classifyBool, strip_pad pre _ post hpre hpost (by simp) rfl rfl]; decide
+    · have he := variant_ends w word hw
+      have hne : w ≠ [] := by
+        rintro rfl
+        simp only [List.mem_cons, List.not_mem_nil, or_false] at hmem
+        rcases hmem with rfl | rfl | rfl <;> simp [wordSyms] at hw
+      rw [classifyBool, strip_pad pre w post hpre hpost hne he.1 he.2]
+      simp only [hw, List.mem_cons, List.not_mem_nil, or_false] at hmem ⊢
+      rcases hmem with rfl | rfl | rfl <;> decide
+  · rintro (rfl | ⟨word, hmem, hw⟩)
+    · rw [classifyBool, strip_pad pre _ post hpre hpost (by simp) rfl rfl]; decide
+    · have he := variant_ends w word hw
+      have hne : w ≠ [] := by
+        rintro rfl
+        simp only [List.mem_cons, List.not_mem_nil, or_false] at hmem
+        rcases hmem with rfl | rfl | rfl <;> simp [wordSyms] at hw
+      rw [classifyBool, strip_pad pre w post hpre hpost hne he.1 he.2]
+      simp only [hw, List.mem_cons, List.not_mem_nil, or_false] at hmem ⊢
+      rcases hmem with rfl | rfl | rfl <;> decide
+
+theorem classifyBool_iff (v : List Sym) :
+    (classifyBool v = .t ↔ (strip v).map lowerSym ∈ trueWords) ∧
+    (classifyBool v = .f ↔ (strip v).map lowerSym ∈ falseWords) := by
+  have hdisj : ∀ w, w ∈ trueWords → w ∉ falseWords := by decide
+  unfold classifyBool
+  simp only [List.contains_iff_mem]
+  by_cases ht : (strip v).map lowerSym ∈ trueWords
+  · simp [ht, hdisj _ ht]
+  · by_cases hf : (strip v).map lowerSym ∈ falseWords <;> simp [ht, hf]
+
+/-- the mode is compared with the two literals, case-sensitively, after stripping -/
+theorem mode_literals (v : List Sym) :
+    (classifyMode v = .age ↔ strip v = wordSyms [97, 103, 101]) ∧
+    (classifyMode v = .cutoff ↔ strip v = wordSyms [99, 117, 116, 111, 102, 102, 45, 100, 97, 116, 101]) := by
+  unfold classifyMode
+  by_cases ha : strip v = wordSyms [97, 103, 101]
+  · simp [ha]; decide
+  · by_cases hc : strip v = wordSyms [99, 117, 116, 111, 102, 102, 45, 100, 97, 116, 101]
+    · simp [hc]; decide
+    · simp [ha, hc]
+
+-- " Yes " is true, "OFF" is false, "" / "maybe" are not booleans; "age" vs "Age"; whole raw sections
+example : classifyBool [.ws, .asc 89, .asc 101, .asc 115, .ws] = .t ∧ classifyBool [.asc 79, .asc 70, .asc 70] = .f ∧
+    classifyBool [] = .bad ∧ classifyBool [.asc 109, .asc 97, .asc 121, .asc 98, .asc 101] = .bad := by decide
+example : classifyMode [.asc 97, .asc 103, .asc 101, .ws] = .age ∧ classifyMode [.asc 65, .asc 103, .asc 101] = .other := by decide
+example : startStorageRaw { expireEnabled := some [.asc 116, .asc 114, .asc 117, .asc 101], expireMode := some [.asc 97, .asc 103, .asc 101],
+                            overrideLeaseDuration := some [.ws] } = .error .valueError := by decide     -- blank override: not "no override"
+example : startStorageRaw { expireEnabled := some [.asc 111, .asc 110], expireMode := some [.asc 97, .asc 103, .asc 101],
+                            overrideLeaseDuration := some [.dig 0, .ws, .asc 100, .asc 97, .asc 121, .asc 115] }
+    = .started ⟨0, true, .age, some 0, none, true, true, false⟩ := by decide                            -- "0 days" is 0, not None (seed C48-d)
 
 end Tahoe.C48
